@@ -768,6 +768,70 @@ func refusalOrder(p *core.Prog, r *core.Report, rule string) {
 	}
 }
 
+// errorFrameQueuedUnlessClosed: the refusal travels through
+// Connection.SendSystemError, which may give up only on a closed connection
+// (whose send queue is gone). In start-close and inbound-closed the writer
+// still runs, so the frame must be queued: the states under which the send on
+// sendCh is reached, as far as explicit comparisons of c.state with constants
+// guard it, include every state but connectionClosed. (A refusal dropped in
+// inbound-closed leaves the caller waiting for its own deadline.)
+func errorFrameQueuedUnlessClosed(p *core.Prog, r *core.Report, rule string) {
+	f := mustFunc(p, r, "", "Connection", "SendSystemError")
+	if f == nil {
+		return
+	}
+	d := p.NewDomain("", "connectionState")
+	stFld := p.Field("", "Connection", "state")
+	sendFld := p.Field("", "Connection", "sendCh")
+	if stFld == nil || sendFld == nil {
+		r.Errorf("Connection.state / Connection.sendCh do not resolve")
+		return
+	}
+	want := d.Declared() &^ d.OfName("connectionClosed")
+	n := 0
+	for _, g := range core.WithAnon(f) {
+		core.EachInstr(g, func(i ssa.Instruction) {
+			var chans []ssa.Value
+			switch x := i.(type) {
+			case *ssa.Send:
+				chans = append(chans, x.Chan)
+			case *ssa.Select:
+				for _, st := range x.States {
+					if st.Dir == types.SendOnly {
+						chans = append(chans, st.Chan)
+					}
+				}
+			}
+			for _, ch := range chans {
+				if core.LoadedField(ch) != sendFld {
+					continue
+				}
+				n++
+				set := d.Declared()
+				fs := factsAt(i.Block())
+				for _, c := range fs.cmps {
+					x, y, op := c.X, c.Y, c.Op
+					if _, isC := x.(*ssa.Const); isC {
+						x, y = y, x
+						op = mirror(op)
+					}
+					k, isK := core.ConstInt(y)
+					if !isK || core.LoadedField(x) != stFld {
+						continue
+					}
+					set = d.RefineConst(set, op, k)
+				}
+				r.Check(set&want == want, rule, fname(f), "error frame is queued in every state but closed", p.Pos(i.Pos()),
+					"states admitted to the send on sendCh: "+d.String(set),
+					"the error frame is not queued in "+d.String(want&^set)+": a refusal (or any system error) sent while the connection drains is dropped silently and the caller waits for its deadline")
+			}
+		})
+	}
+	if n == 0 {
+		r.Errorf("Connection.SendSystemError: no send on sendCh found")
+	}
+}
+
 func c07Admission(p *core.Prog, r *core.Report) {
 	d := p.NewDomain("", "connectionState")
 	active := d.OfName("connectionActive")
@@ -803,6 +867,7 @@ func c07Admission(p *core.Prog, r *core.Report) {
 			}
 		}
 		refusalOrder(p, r, "C07-R4")
+		errorFrameQueuedUnlessClosed(p, r, "C07-R4")
 		if n < 2 {
 			r.Errorf("handleCallReq: expected the state to be observed before and after registering the exchange, found %d observations", n)
 		} else {
